@@ -608,6 +608,13 @@ class ExprMixin:
         yield st, self.eq(st, a, b)
 
     def contains(self, st, container, item):
+        if isinstance(container, (Opt, NoneV)):
+            for s1, x in self.unwrap(st, container, "membership test"):
+                if isinstance(x, RaiseV):
+                    yield s1, x
+                else:
+                    yield from self.contains(s1, x, item)
+            return
         if isinstance(container, TupleV):
             items = container.items
         elif isinstance(container, Ref):
@@ -696,6 +703,17 @@ class ExprMixin:
             yield st, BoundV(o, name)
             return
         if isinstance(o, EnumV):
+            if name == "value" and self.enum_by_index(o.cls):
+                vals = list(o.cls.enum_members.values())
+                c = self.pyconst(o.val)
+                if c is not None:
+                    yield st, self.lift(vals[c])
+                    return
+                acc = self.lift(vals[-1])
+                for i in reversed(range(len(vals) - 1)):
+                    acc = self.merge(st, o.val == self.intval(i), self.lift(vals[i]), acc)
+                yield st, acc
+                return
             if name == "value":
                 yield st, self.lift(o.val)
                 return
@@ -703,6 +721,8 @@ class ExprMixin:
                 c = o.val if not is_term(o.val) else self.pyconst(o.val)
                 if c is None:
                     yield st, Opaque("str")
+                elif self.enum_by_index(o.cls):
+                    yield st, StrV(list(o.cls.enum_members)[c])
                 else:
                     yield st, StrV([k for k, v in o.cls.enum_members.items() if v == c][0])
                 return
@@ -714,8 +734,7 @@ class ExprMixin:
                 yield st, StrV(ci.name)
                 return
             if ci.is_enum and name in ci.enum_members:
-                yield st, EnumV(ci, self.lift(ci.enum_members[name]) if isinstance(ci.enum_members[name], int)
-                                else ci.enum_members[name])
+                yield st, self.enum_member(ci, name)
                 return
             fm = self.repo.find_method(ci, name)
             if fm is not None:
@@ -770,6 +789,15 @@ class ExprMixin:
 
     def opaque_attr(self, st, o, name):
         return None
+
+    def enum_by_index(self, ci):
+        """enums whose values are not all ints are represented by the member index"""
+        return not all(isinstance(v, int) and not isinstance(v, bool) for v in ci.enum_members.values())
+
+    def enum_member(self, ci, name):
+        if self.enum_by_index(ci):
+            return EnumV(ci, self.intval(list(ci.enum_members).index(name)))
+        return EnumV(ci, self.lift(ci.enum_members[name]))
 
     def module_const_thawed(self, st, ci, name, expr):
         v = self.module_const(ci.module, f"{ci.name}.{name}", expr)
